@@ -33,7 +33,7 @@ VARIABLES
   reterr
 vars == <<out, k, mode, pos, acc, failed, done, reterr>>
 
-Init == /\ out \in Nat /\ k \in Nat /\ mode \in {"errAtCall", "shortWrite"}
+Init == /\ out \in Nat /\ k \in Nat /\ mode \in {"errAtCall", "shortWrite", "fullErr"}
         /\ pos = 0 /\ acc = 0 /\ failed = FALSE /\ done = FALSE /\ reterr = FALSE
 
 \* DestWrite of WriterFaults.tla on the flattened state: the call succeeds iff it still fits below k
@@ -43,7 +43,7 @@ Write(len) ==
   THEN /\ acc' = acc + len /\ failed' = FALSE
        /\ done' = FALSE /\ reterr' = FALSE /\ pos' = pos + len
   ELSE /\ failed' = TRUE
-       /\ acc' = IF failed \/ mode = "errAtCall" THEN acc ELSE k
+       /\ acc' = IF failed \/ mode = "errAtCall" THEN acc ELSE IF mode = "shortWrite" THEN k ELSE acc + len     \* fullErr: the offending call is taken completely
        /\ done' = TRUE /\ reterr' = TRUE /\ pos' = pos          \* the serializer stops at the first failed write
 Next == /\ ~done
         /\ \/ /\ pos < out
@@ -54,11 +54,11 @@ Spec == Init /\ [][Next]_vars
 
 IndInv ==
   /\ out \in Nat /\ k \in Nat /\ pos \in Nat /\ acc \in Nat
-  /\ mode \in {"errAtCall", "shortWrite"}
+  /\ mode \in {"errAtCall", "shortWrite", "fullErr"}
   /\ failed \in BOOLEAN /\ done \in BOOLEAN /\ reterr \in BOOLEAN
   /\ pos <= out
   /\ ~failed => (acc = pos /\ pos <= k)
-  /\ failed => (done /\ reterr /\ k < out /\ pos <= acc /\ acc <= k)
+  /\ failed => (done /\ reterr /\ k < out /\ pos <= acc /\ acc <= out /\ (mode # "fullErr" => acc <= k) /\ (mode = "fullErr" => acc > k))
   /\ reterr => (failed /\ done)
   /\ (done /\ ~reterr) => (pos = out /\ ~failed)
   /\ ~done => (~failed /\ ~reterr)
